@@ -4,5 +4,6 @@ CONSTANTS
   MaxAttrs = 2
   MaxRows = 3
   Depth = 0
+  Fork = FALSE
 INVARIANTS TypeOK Laws
 CHECK_DEADLOCK FALSE
